@@ -283,7 +283,11 @@ pub fn execute(prop: &str, sc: &ShutdownScript, opts: &ExecOpts) -> Outcome {
                             out.violate(prop, "second-replier-not-refused", "client", format!("a second library replier on a bound topic: {s}"));
                         }
                     }
-                    if rep.rebind_ok == Some(false) {
+                    // judged on a loss-free network only: the new replier registers 500 ms after the
+                    // first one was dropped, and under datagram loss the server may legitimately
+                    // still hold the first one bound at that moment (the newcomer is then refused,
+                    // as the property says)
+                    if rep.rebind_ok == Some(false) && sc.net.loss_ppm == 0 {
                         out.violate(prop, "rebind-failed", "client", format!("after the first replier left, a new library replier did not serve requests ({:?})", rep.notes));
                     }
                     if rep.rebind_ok == Some(true) {
